@@ -1,6 +1,12 @@
 HOOK_COMMITS = []
 NOT_APPLICABLE = {}
 CHECKS = {
+ "C07": {
+  "level": "exploration",
+  "technique": "runtime monitor: tag-encoded GeometryModel (unique vertex tags, values a function of the element tag) checked after every operation of seeded removal / padding / masked-copy / failing-call sequences, live and after re-open",
+  "text": "Points, curves and surfaces with vertices used by no cell and unordered cells carry float/integer/referenced/boolean vertex and cell data; seeded sequences of add_data (full, short -> padded, too long -> refused), value assignment (same three), remove_vertices / remove_cells with first, last, middle, repeated, unsorted, all-but-one, no-cell-touching and all-cell-touching index sets, masked copies (continuing on the copy), re-opens and deliberately invalid calls are executed; after each step one entry per vertex/cell, each surviving element's value (by tag), cell index range, cell coordinates, padding with the no-data value and, after a raising call, consistency with the state before or after the call are checked, and once more from a fresh read-only Workspace. Held on the counted sequences only.",
+  "note": "Only failures the code can really raise are provoked. Face-associated data are not generated (no class exposes faces). Empty index lists are not generated.",
+ },
  "C13": {
   "level": "exploration",
   "technique": "runtime monitor: pure-Python point-in-closed-box reference oracle on lattice coordinates (exact faces), tag-encoded data for extent copies, outcome classes counted",
